@@ -46,6 +46,92 @@ fn unit_coords(spec: &Spec, v: &V, out: &mut Vec<f64>) {
     }
 }
 
+/// Fallback when a sampler does not consume the generator the way the exhaustive lattice assumes (a
+/// different but possibly correct scheme): real StdRng streams over a seed lattice; every scalar
+/// coordinate's CDF within 6 sigma of uniform, every sample inside the bounds, and coordinates of
+/// DIFFERENT components uncorrelated within 6 / sqrt(N). Returns what it found wrong, if anything.
+pub fn generic_stream_audit<K: Kit>(spec: &Spec) -> Result<u64, String> {
+    use rand::SeedableRng;
+    let seeds = 48u64;
+    let per = 800usize;
+    let rows: Vec<Vec<(Vec<f64>, Vec<usize>, bool)>> = (0..seeds)
+        .into_par_iter()
+        .map(|seed| {
+            let sp = K::build(spec);
+            let mut rng = rand::rngs::StdRng::seed_from_u64(seed);
+            (0..per)
+                .filter_map(|_| sp.sample_uniform(&mut rng).ok())
+                .map(|s| {
+                    let v = K::to_v(&s);
+                    // coordinates tagged with the index of the component they belong to
+                    let mut xs = Vec::new();
+                    let mut owner = Vec::new();
+                    let parts: Vec<(Spec, V)> = match (&v, refspace::as_parts(spec)) {
+                        (V::Cmp(c), Some((ps, _))) => ps.into_iter().zip(c.iter().cloned()).collect(),
+                        _ => vec![(spec.clone(), v.clone())],
+                    };
+                    for (ci, (ps, pv)) in parts.iter().enumerate() {
+                        let mut u = Vec::new();
+                        match pv {
+                            V::So3(q) => u.extend(q.iter().map(|c| 0.5 * (c + 1.0))),
+                            _ => unit_coords(ps, pv, &mut u),
+                        }
+                        owner.extend(std::iter::repeat(ci).take(u.len()));
+                        xs.extend(u);
+                    }
+                    (xs, owner, sp.satisfies_bounds(&s))
+                })
+                .collect()
+        })
+        .collect();
+    let all: Vec<(Vec<f64>, Vec<usize>, bool)> = rows.into_iter().flatten().collect();
+    if all.len() != (seeds as usize) * per {
+        return Err("the sampler failed on a real generator stream".into());
+    }
+    if all.iter().any(|(_, _, ok)| !ok) {
+        return Err("a streamed sample violates the bounds".into());
+    }
+    let n = all.len() as f64;
+    let d = all[0].0.len();
+    let owner = all[0].1.clone();
+    let scalar: Vec<bool> = {
+        // SO(3) coordinates are not uniform on [0,1]: only the product-law coordinates get the CDF check
+        let (parts, single): (Vec<Spec>, bool) = match refspace::as_parts(spec) {
+            Some((ps, _)) => (ps, false),
+            None => (vec![spec.clone()], true),
+        };
+        let _ = single;
+        owner.iter().map(|&ci| !matches!(parts[ci], Spec::So3 { .. })).collect()
+    };
+    for i in 0..d {
+        if !scalar[i] {
+            continue;
+        }
+        for e in 1..10 {
+            let edge = e as f64 / 10.0;
+            let emp = all.iter().filter(|r| r.0[i] <= edge).count() as f64 / n;
+            if (emp - edge).abs() > 6.0 * (edge * (1.0 - edge) / n).sqrt() {
+                return Err(format!("coordinate {i}: empirical CDF {emp:.4} at {edge} is more than 6 sigma from uniform"));
+            }
+        }
+    }
+    let mean: Vec<f64> = (0..d).map(|i| all.iter().map(|r| r.0[i]).sum::<f64>() / n).collect();
+    let var: Vec<f64> = (0..d).map(|i| all.iter().map(|r| (r.0[i] - mean[i]).powi(2)).sum::<f64>() / n).collect();
+    for i in 0..d {
+        for j in (i + 1)..d {
+            if owner[i] == owner[j] || var[i] <= 0.0 || var[j] <= 0.0 {
+                continue;
+            }
+            let cov = all.iter().map(|r| (r.0[i] - mean[i]) * (r.0[j] - mean[j])).sum::<f64>() / n;
+            let corr = cov / (var[i] * var[j]).sqrt();
+            if corr.abs() > 6.0 / n.sqrt() {
+                return Err(format!("coordinates {i} and {j} of different components have correlation {corr:.4} over {} samples: the components are not sampled independently", all.len()));
+            }
+        }
+    }
+    Ok(all.len() as u64)
+}
+
 /// Product-law check: every tuple of the K^d mid-point lattice; B bins per coordinate, B | K.
 fn product_check<K: Kit>(spec: &Spec, d: usize, k: usize, b: usize, rep: &mut Report) {
     product_check_sp::<K>(spec, K::build(spec), d, k, b, rep)
@@ -114,7 +200,13 @@ fn product_check_sp<K: Kit>(spec: &Spec, sp: K::SP, d: usize, k: usize, b: usize
     rep.count("product_lattices", 1);
     let det = |extra: Value| json!({"space": spec.json(), "K": k, "d": d, "B": b, "more": extra});
     if bad_draws > 0 {
-        rep.engine_error(format!("sampler of {spec:?} did not consume exactly {d} words per sample ({bad_draws} tuples): structure not recognised"));
+        // the sampler consumes its generator differently from what the lattice assumes: that may be a
+        // correct scheme, so the lattice verdicts are void and the law is audited on real streams instead
+        rep.count("lattices_replaced_by_stream_audit", 1);
+        match generic_stream_audit::<K>(spec) {
+            Ok(n) => rep.count("evaluations", n),
+            Err(e) => viol(rep, &format!("{}|stream-audit|law", K::NAME), format!("the sampler does not consume {d} words per sample, and on real generator streams: {e}"), det(json!({}))),
+        }
         return;
     }
     if outside > 0 {
